@@ -1,8 +1,8 @@
 import HgVerif.Lemmas.SlotsDict
 /-!
-Helper lemmas for C05, TSD value level: for histories with non-decreasing times in which no key is
-inserted again in the cycle in which its child was written and the key erased ("clean" histories), the
-modified map together with the removed set reproduces the value from the value at the previous tick.
+Helper lemmas for C05, TSD value level: for histories with non-decreasing times the modified map together
+with the removed set reproduces the value from the value at the previous tick (this needs the repair of
+F-C05-1, `restore_modified_mark` / `dMarkBits`).
 -/
 namespace HgVerif.Slots
 local notation "Time" => Nat
@@ -24,9 +24,9 @@ theorem TSD.insertKey_slots {x : TSD} (h : x.keys.WF) (t : Time) (k : Key) :
       ((s' = sget (x.prepareDelta t).keys.slots (x.insertKey t k).2.slot ∧ s'.st = .live ∧ s'.key = k) ∨
        ((sget (x.prepareDelta t).keys.slots (x.insertKey t k).2.slot).st = .pending ∧
         (sget (x.prepareDelta t).keys.slots (x.insertKey t k).2.slot).key = k ∧
-        s' = dInsBits { sget (x.prepareDelta t).keys.slots (x.insertKey t k).2.slot with st := .live }) ∨
+        s' = dInsBitsAt t { sget (x.prepareDelta t).keys.slots (x.insertKey t k).2.slot with st := .live }) ∨
        ((sget (x.prepareDelta t).keys.slots (x.insertKey t k).2.slot).st = .free ∧
-        s' = dInsBits { sget (x.prepareDelta t).keys.slots (x.insertKey t k).2.slot with
+        s' = dInsBitsAt t { sget (x.prepareDelta t).keys.slots (x.insertKey t k).2.slot with
           st := .live, key := k, cval := 0, clmt := 0 })) := by
   have hwf1 : (x.prepareDelta t).keys.WF := by
     by_cases ht : t ≤ x.deltaTime
@@ -45,7 +45,7 @@ theorem TSD.insertKey_slots {x : TSD} (h : x.keys.WF) (t : Time) (k : Key) :
     · rfl
   | resurrect hi1 hi2 hi3 hi4 hi5 =>
     simp only [hi1, ↓reduceIte]
-    refine ⟨trivial, dInsBits { sget x1.keys.slots (x1.keys.insert k).2.slot with st := .live }, ?_,
+    refine ⟨trivial, dInsBitsAt t { sget x1.keys.slots (x1.keys.insert k).2.slot with st := .live }, ?_,
       Or.inr (Or.inl ⟨hi3, hi4, rfl⟩)⟩
     intro j
     simp only [Store.modifySlot, sget_modify, hi5]
@@ -55,7 +55,7 @@ theorem TSD.insertKey_slots {x : TSD} (h : x.keys.WF) (t : Time) (k : Key) :
       simp [this, hj]
   | fresh hi1 hi2 hi3 hi4 hi5 =>
     simp only [hi1, ↓reduceIte]
-    refine ⟨trivial, dInsBits { sget x1.keys.slots (x1.keys.insert k).2.slot with
+    refine ⟨trivial, dInsBitsAt t { sget x1.keys.slots (x1.keys.insert k).2.slot with
       st := .live, key := k, cval := 0, clmt := 0 }, ?_, Or.inr (Or.inr ⟨hi4, rfl⟩)⟩
     intro j
     simp only [Store.modifySlot, sget_modify, hi5]
@@ -151,49 +151,55 @@ theorem TSD.writeChild_slots {x : TSD} {i : Nat} {t : Time} (v : Int)
 
 /-! ### the value-level invariant -/
 
-/-- per-slot relation between child value / child time, the bits, the window-start items `W0` and
-    `delta_time_` -/
-def VSlotOK (W0 : List (Key × Int)) (dt : Nat) (s : Slot) : Prop :=
+/-- per-slot relation between child value / child time, the bits, the window-start items `W0`,
+    `delta_time_` (`dt`) and the dictionary's `last_modified_time` (`lm`) -/
+def VSlotOK (W0 : List (Key × Int)) (dt lm : Nat) (s : Slot) : Prop :=
   (s.published = true → s.modified = false → (s.key, s.cval) ∈ W0) ∧
   (s.removed = true → s.clmt < dt → (s.key, s.cval) ∈ W0) ∧
   (s.published = true → s.clmt = dt → s.modified = true) ∧
   (s.st ≠ .free → s.key ∉ W0.map (·.1) → s.clmt = 0 ∨ s.clmt = dt) ∧
   (s.st ≠ .free → s.clmt ≤ dt) ∧
-  (s.modified = true → s.clmt = dt)
+  (s.modified = true → s.clmt = dt) ∧
+  (s.st ≠ .free → s.clmt ≤ lm)
 
-theorem vok_ins_resurrect {W : List (Key × Int)} {dt : Nat} {s : Slot} (hd : DictSlotOK (W.map (·.1)) s)
-    (h : VSlotOK W dt s) (hp : s.st = .pending) (hc : s.clmt ≠ dt) :
-    VSlotOK W dt (dInsBits { s with st := .live }) := by
-  unfold VSlotOK DictSlotOK dInsBits at *
+theorem vok_mono {W : List (Key × Int)} {dt lm lm' : Nat} {s : Slot} (h : VSlotOK W dt lm s) (hl : lm ≤ lm') :
+    VSlotOK W dt lm' s := by
+  unfold VSlotOK at *
   grind
 
-theorem vok_ins_fresh {W : List (Key × Int)} {dt : Nat} {s : Slot} {k : Key} (hd : DictSlotOK (W.map (·.1)) s)
-    (hp : s.st = .free) :
-    VSlotOK W dt (dInsBits { s with st := .live, key := k, cval := 0, clmt := 0 }) := by
-  unfold VSlotOK DictSlotOK dInsBits at *
+theorem vok_ins_resurrect {W : List (Key × Int)} {dt lm : Nat} {s : Slot} (hd : DictSlotOK (W.map (·.1)) s)
+    (h : VSlotOK W dt lm s) (hp : s.st = .pending) :
+    VSlotOK W dt lm (dInsBitsAt dt { s with st := .live }) := by
+  unfold VSlotOK DictSlotOK dInsBitsAt dMarkBits dInsBits at *
   grind
 
-theorem vok_rem {W : List (Key × Int)} {dt : Nat} {s : Slot} (hd : DictSlotOK (W.map (·.1)) s)
-    (h : VSlotOK W dt s) (hp : s.st = .live) : VSlotOK W dt (dRemBits { s with st := .pending }) := by
+theorem vok_ins_fresh {W : List (Key × Int)} {dt lm : Nat} {s : Slot} {k : Key}
+    (hd : DictSlotOK (W.map (·.1)) s) (hp : s.st = .free) (h0 : dt ≠ 0) :
+    VSlotOK W dt lm (dInsBitsAt dt { s with st := .live, key := k, cval := 0, clmt := 0 }) := by
+  unfold VSlotOK DictSlotOK dInsBitsAt dMarkBits dInsBits at *
+  grind
+
+theorem vok_rem {W : List (Key × Int)} {dt lm : Nat} {s : Slot} (hd : DictSlotOK (W.map (·.1)) s)
+    (h : VSlotOK W dt lm s) (hp : s.st = .live) : VSlotOK W dt lm (dRemBits { s with st := .pending }) := by
   unfold VSlotOK DictSlotOK dRemBits at *
   grind
 
-theorem vok_child {W : List (Key × Int)} {dt : Nat} {s : Slot} {v : Int} (hd : DictSlotOK (W.map (·.1)) s)
-    (h : VSlotOK W dt s) (hl : s.st = .live) (h0 : dt ≠ 0) :
-    VSlotOK W dt (dChildBits { s with cval := v, clmt := dt }) := by
+theorem vok_child {W : List (Key × Int)} {dt lm : Nat} {s : Slot} {v : Int} (hd : DictSlotOK (W.map (·.1)) s)
+    (h : VSlotOK W dt lm s) (hl : s.st = .live) (h0 : dt ≠ 0) (hlm : dt ≤ lm) :
+    VSlotOK W dt lm (dChildBits { s with cval := v, clmt := dt }) := by
   unfold VSlotOK DictSlotOK dChildBits at *
   grind
 
-theorem vok_cval {W : List (Key × Int)} {dt : Nat} {s : Slot} {v : Int} (hd : DictSlotOK (W.map (·.1)) s)
-    (h : VSlotOK W dt s) (hl : s.st = .live) (hc : s.clmt = dt) (h0 : dt ≠ 0) :
-    VSlotOK W dt { s with cval := v } := by
+theorem vok_cval {W : List (Key × Int)} {dt lm : Nat} {s : Slot} {v : Int} (hd : DictSlotOK (W.map (·.1)) s)
+    (h : VSlotOK W dt lm s) (hl : s.st = .live) (hc : s.clmt = dt) (h0 : dt ≠ 0) :
+    VSlotOK W dt lm { s with cval := v } := by
   unfold VSlotOK DictSlotOK at *
   grind
 
-theorem vok_clear {W W' : List (Key × Int)} {dt dt' : Nat} {s : Slot} (hd : DictSlotOK (W.map (·.1)) s)
-    (h : VSlotOK W dt s) (hlt : dt < dt')
+theorem vok_clear {W W' : List (Key × Int)} {dt dt' lm : Nat} {s : Slot} (hd : DictSlotOK (W.map (·.1)) s)
+    (h : VSlotOK W dt lm s) (hlt : dt < dt')
     (hm : s.st = .live → s.clmt ≠ 0 → (s.key, s.cval) ∈ W' ∧ s.key ∈ W'.map (·.1)) :
-    VSlotOK W' dt' (clearDictBits (if s.st = .pending then { s with st := .free } else s)) := by
+    VSlotOK W' dt' lm (clearDictBits (if s.st = .pending then { s with st := .free } else s)) := by
   by_cases hp : s.st = .pending
   · rw [if_pos hp]
     unfold VSlotOK DictSlotOK clearDictBits at *
@@ -209,29 +215,32 @@ theorem vok_clear {W W' : List (Key × Int)} {dt dt' : Nat} {s : Slot} (hd : Dic
 
 structure TSD.VInv (x : TSD) (W0 : List (Key × Int)) : Prop where
   inv : x.Inv (W0.map (·.1))
-  vslot : ∀ i, VSlotOK W0 x.deltaTime (sget x.keys.slots i)
+  vslot : ∀ i, VSlotOK W0 x.deltaTime x.lmt (sget x.keys.slots i)
   uniqW : ∀ p ∈ W0, ∀ q ∈ W0, p.1 = q.1 → p = q
+  /-- the dictionary never ticked later than its delta window -/
+  lmt_le : x.lmt ≤ x.deltaTime
 
 theorem TSD.VInv_empty : TSD.VInv {} [] := by
-  refine ⟨TSD.Inv_empty, ?_, by simp⟩
+  refine ⟨TSD.Inv_empty, ?_, by simp, Nat.le_refl _⟩
   intro i
   simp [VSlotOK, sget]
 
+/-- same key store and window, `last_modified_time` not smaller -/
 theorem TSD.VInv_congr {x y : TSD} {W : List (Key × Int)} (h : x.VInv W) (e : y.keys = x.keys)
-    (ed : y.deltaTime = x.deltaTime) : y.VInv W := by
-  refine ⟨TSD.Inv_congr h.inv e, ?_, h.uniqW⟩
-  rw [e, ed]; exact h.vslot
+    (ed : y.deltaTime = x.deltaTime) (el : x.lmt ≤ y.lmt) (el' : y.lmt ≤ y.deltaTime) : y.VInv W := by
+  refine ⟨TSD.Inv_congr h.inv e, ?_, h.uniqW, el'⟩
+  rw [e, ed]; exact fun i => vok_mono (h.vslot i) el
 
 theorem TSD.VInv_update {x y : TSD} {W : List (Key × Int)} (h : x.VInv W) (hinv : y.Inv (W.map (·.1)))
-    (hd : y.deltaTime = x.deltaTime) {i : Nat} {s' : Slot}
+    (hd : y.deltaTime = x.deltaTime) (el : x.lmt ≤ y.lmt) (el' : y.lmt ≤ y.deltaTime) {i : Nat} {s' : Slot}
     (hget : ∀ j, sget y.keys.slots j = if j = i then s' else sget x.keys.slots j)
-    (hs' : VSlotOK W x.deltaTime s') : y.VInv W := by
-  refine ⟨hinv, ?_, h.uniqW⟩
+    (hs' : VSlotOK W x.deltaTime y.lmt s') : y.VInv W := by
+  refine ⟨hinv, ?_, h.uniqW, el'⟩
   intro j
   rw [hget j, hd]
   split
   · exact hs'
-  · exact h.vslot j
+  · exact vok_mono (h.vslot j) el
 
 theorem mem_validItems {x : TSD} {p : Key × Int} :
     p ∈ x.validItems ↔ ∃ i, (sget x.keys.slots i).st = .live ∧ (sget x.keys.slots i).clmt ≠ 0 ∧
@@ -266,6 +275,10 @@ theorem TSD.vghost_fst (x : TSD) (W0 : List (Key × Int)) (t : Time) :
 theorem TSD.vghost_of_le {x : TSD} {W0 : List (Key × Int)} {t : Time} (h : t ≤ x.deltaTime) :
     x.vghost W0 t = W0 := by simp [TSD.vghost, h]
 
+theorem recMod_ge (lmt t : Time) : lmt ≤ recMod lmt t := by rw [recMod_eq_max]; omega
+theorem le_recMod (lmt t : Time) : t ≤ recMod lmt t := by rw [recMod_eq_max]; omega
+theorem recMod_le {lmt t d : Time} (h1 : lmt ≤ d) (h2 : t ≤ d) : recMod lmt t ≤ d := by rw [recMod_eq_max]; omega
+
 theorem TSD.prepare_vinv {x : TSD} {W0 : List (Key × Int)} (h : x.VInv W0) (t : Time) :
     (x.prepareDelta t).VInv (x.vghost W0 t) := by
   by_cases ht : t ≤ x.deltaTime
@@ -276,9 +289,10 @@ theorem TSD.prepare_vinv {x : TSD} {W0 : List (Key × Int)} (h : x.VInv W0) (t :
     rw [hg] at hinv ⊢
     obtain ⟨_, hget⟩ := TSD.prepare_slots h.inv.wf ht
     have hdt : (x.prepareDelta t).deltaTime = t := by rw [TSD.deltaTime_prepare]; omega
-    refine ⟨hinv, ?_, ?_⟩
+    have hl := TSD.lmt_prepare x t
+    refine ⟨hinv, ?_, ?_, by rw [hl, hdt]; have := h.lmt_le; omega⟩
     · intro j
-      rw [hget j, hdt]
+      rw [hget j, hdt, hl]
       apply vok_clear (h.inv.slot j) (h.vslot j) (by omega)
       intro hl hc
       have hmem : (⟨(sget x.keys.slots j).key, (sget x.keys.slots j).cval⟩ : Key × Int) ∈ x.validItems :=
@@ -291,71 +305,116 @@ theorem TSD.prepare_vinv {x : TSD} {W0 : List (Key × Int)} (h : x.VInv W0) (t :
       subst this
       exact Prod.ext hpq (by rw [← hiv, ← hjv])
 
-/-- the clean-history condition for inserting key `k` at time `t`: no pending-erase slot holding `k` has a
-    child written at `t` (i.e. `k` was not written and then erased earlier in this very cycle) -/
-def TSD.cleanFor (x : TSD) (t : Time) (k : Key) : Prop :=
-  ∀ i, (sget x.keys.slots i).st = .pending → (sget x.keys.slots i).key = k → (sget x.keys.slots i).clmt ≠ t
-
-theorem TSD.insertKey_vinv {x : TSD} {W0 : List (Key × Int)} (h : x.VInv W0) {t : Time} (ht : x.deltaTime ≤ t)
-    {k : Key} (hc : x.cleanFor t k) : (x.insertKey t k).1.VInv (x.vghost W0 t) := by
+theorem TSD.insertKey_vinv {x : TSD} {W0 : List (Key × Int)} (h : x.VInv W0) {t : Time} (h0 : t ≠ 0)
+    (ht : x.deltaTime ≤ t) (k : Key) : (x.insertKey t k).1.VInv (x.vghost W0 t) := by
   have h1 := TSD.prepare_vinv h t
-  have hinv := (TSD.insertKey_inv h.inv t k).1
+  obtain ⟨hinv, hdd, hlm, _⟩ := TSD.insertKey_inv h.inv t k
   rw [← TSD.vghost_fst] at hinv
   obtain ⟨hd, s', hget, hcase⟩ := TSD.insertKey_slots h.inv.wf t k
   have hdt : (x.prepareDelta t).deltaTime = t := by rw [TSD.deltaTime_prepare]; omega
-  apply TSD.VInv_update h1 hinv hd hget
+  have hl1 : (x.prepareDelta t).lmt = x.lmt := TSD.lmt_prepare x t
+  have hle : (x.insertKey t k).1.lmt ≤ (x.insertKey t k).1.deltaTime := by
+    rw [hlm, hdd]; have := h.lmt_le; omega
+  apply TSD.VInv_update h1 hinv hd (by rw [hlm, hl1]; exact Nat.le_refl _) hle hget
+  rw [hlm, ← hl1]
   rcases hcase with ⟨e, _, _⟩ | ⟨hp, hk, e⟩ | ⟨hf, e⟩
   · rw [e]; exact h1.vslot _
-  · rw [e]
-    apply vok_ins_resurrect (h1.inv.slot _) (h1.vslot _) hp
-    -- a pending slot survives `prepare_delta` only if the window did not roll
-    by_cases hle : t ≤ x.deltaTime
-    · rw [TSD.prepareDelta_of_le hle] at hp hk ⊢
-      have : x.deltaTime = t := by omega
-      rw [this]
-      exact hc _ hp hk
-    · exact absurd hp (TSD.prepare_no_pending h.inv.wf hle _)
-  · rw [e]; exact vok_ins_fresh (h1.inv.slot _) hf
+  · rw [e, hdt]
+    have := vok_ins_resurrect (h1.inv.slot _) (h1.vslot _) hp
+    rw [hdt] at this
+    exact this
+  · rw [e, hdt]
+    exact vok_ins_fresh (h1.inv.slot _) hf h0
 
 theorem TSD.removeKey_vinv {x : TSD} {W0 : List (Key × Int)} (h : x.VInv W0) (t : Time) (k : Key) :
     (x.removeKey t k).1.VInv (x.vghost W0 t) := by
   have h1 := TSD.prepare_vinv h t
-  have hinv := (TSD.removeKey_inv h.inv t k).1
+  obtain ⟨hinv, hdd, hlm⟩ := TSD.removeKey_inv h.inv t k
   rw [← TSD.vghost_fst] at hinv
   obtain ⟨hd, hcase⟩ := TSD.removeKey_slots h.inv.wf t k
+  have hl1 : (x.prepareDelta t).lmt = x.lmt := TSD.lmt_prepare x t
+  have hle : (x.removeKey t k).1.lmt ≤ (x.removeKey t k).1.deltaTime := by
+    rw [hlm, hdd]; have := h.lmt_le; omega
   rcases hcase with e | ⟨i, hl, hget⟩
-  · exact TSD.VInv_congr h1 e hd
-  · apply TSD.VInv_update h1 hinv hd hget
+  · exact TSD.VInv_congr h1 e hd (by rw [hlm, hl1]; exact Nat.le_refl _) hle
+  · apply TSD.VInv_update h1 hinv hd (by rw [hlm, hl1]; exact Nat.le_refl _) hle hget
+    rw [hlm, ← hl1]
     exact vok_rem (h1.inv.slot _) (h1.vslot _) hl
 
 theorem TSD.at_keys (x : TSD) (t : Time) (k : Key) :
-    (x.at t k).1.keys = (x.insertKey t k).1.keys ∧ (x.at t k).1.deltaTime = (x.insertKey t k).1.deltaTime := by
+    (x.at t k).1.keys = (x.insertKey t k).1.keys ∧ (x.at t k).1.deltaTime = (x.insertKey t k).1.deltaTime ∧
+    (x.insertKey t k).1.lmt ≤ (x.at t k).1.lmt ∧ (x.at t k).1.lmt ≤ max (x.insertKey t k).1.lmt t := by
   unfold TSD.at TSD.markModified
-  by_cases hi : (x.insertKey t k).2.inserted = true <;> simp [hi]
+  by_cases hi : (x.insertKey t k).2.inserted = true
+  · simp only [hi, ↓reduceIte, recMod_eq_max]; exact ⟨trivial, trivial, by omega, by omega⟩
+  · simp only [hi, Bool.false_eq_true, ↓reduceIte]; exact ⟨trivial, trivial, by omega, by omega⟩
 
-theorem TSD.at_vinv {x : TSD} {W0 : List (Key × Int)} (h : x.VInv W0) {t : Time} (ht : x.deltaTime ≤ t)
-    {k : Key} (hc : x.cleanFor t k) : (x.at t k).1.VInv (x.vghost W0 t) :=
-  TSD.VInv_congr (TSD.insertKey_vinv h ht hc) (TSD.at_keys x t k).1 (TSD.at_keys x t k).2
+theorem TSD.at_vinv {x : TSD} {W0 : List (Key × Int)} (h : x.VInv W0) {t : Time} (h0 : t ≠ 0)
+    (ht : x.deltaTime ≤ t) (k : Key) : (x.at t k).1.VInv (x.vghost W0 t) := by
+  obtain ⟨a1, a2, a3, a4⟩ := TSD.at_keys x t k
+  have hi := TSD.insertKey_vinv h h0 ht k
+  have hdd := (TSD.insertKey_inv h.inv t k).2.1
+  refine TSD.VInv_congr hi a1 a2 a3 ?_
+  have := hi.lmt_le
+  rw [a2, hdd] at *
+  omega
+
+theorem TSD.writeChild_lmt (x : TSD) (i : Nat) (t : Time) (v : Int) :
+    x.lmt ≤ (x.writeChild i t v).lmt ∧ (x.writeChild i t v).lmt ≤ max x.lmt t ∧
+    ((sget x.keys.slots i).clmt < t → t ≤ (x.writeChild i t v).lmt) := by
+  unfold TSD.writeChild
+  simp only
+  by_cases hfirst : ((sget x.keys.slots i).clmt != t) = true
+  · simp only [hfirst, ↓reduceIte]
+    by_cases hle : t ≤ (sget x.keys.slots i).clmt
+    · simp only [hle, ↓reduceIte]; exact ⟨Nat.le_refl _, by omega, by omega⟩
+    · simp only [hle, ↓reduceIte]
+      have hr : ∀ y : TSD, (y.recordChildModified i t).lmt = y.lmt := by
+        intro y
+        unfold TSD.recordChildModified
+        split
+        · rfl
+        · simp only; exact TSD.lmt_prepare y t
+      simp only [TSD.markModified, hr, recMod_eq_max]
+      exact ⟨by omega, by omega, by omega⟩
+  · simp only [hfirst, Bool.false_eq_true, ↓reduceIte]
+    have : (sget x.keys.slots i).clmt = t := by simpa using hfirst
+    exact ⟨Nat.le_refl _, by omega, by omega⟩
 
 theorem TSD.writeChild_vinv {x : TSD} {W : List (Key × Int)} (h : x.VInv W) {i : Nat} {t : Time} (v : Int)
     (hl : (sget x.keys.slots i).st = .live) (ht : t ≠ 0) (hd : t = x.deltaTime) :
     (x.writeChild i t v).VInv W := by
   have hinv := (TSD.writeChild_inv h.inv v hl ht (by omega)).1
   obtain ⟨hdt, s', hget, hcase⟩ := TSD.writeChild_slots (x := x) v hl (by omega : t ≤ x.deltaTime)
-  apply TSD.VInv_update h hinv hdt hget
-  have h5 := (h.vslot i).2.2.2.2.1 (by rw [hl]; decide)
-  rcases hcase with ⟨e, hle⟩ | ⟨e, hlt⟩
+  obtain ⟨l1, l2, l3⟩ := TSD.writeChild_lmt x i t v
+  have hle : (x.writeChild i t v).lmt ≤ (x.writeChild i t v).deltaTime := by
+    rw [hdt]; have := h.lmt_le; omega
+  apply TSD.VInv_update h hinv hdt l1 hle hget
+  rcases hcase with ⟨e, hle'⟩ | ⟨e, hlt⟩
   · rw [e]
-    exact vok_cval (h.inv.slot i) (h.vslot i) hl (by omega) (by omega)
-  · rw [e, hd]
-    exact vok_child (h.inv.slot i) (h.vslot i) hl (by omega)
+    have h5 := (h.vslot i).2.2.2.2.1 (by rw [hl]; decide)
+    exact vok_mono (vok_cval (h.inv.slot i) (h.vslot i) hl (by omega) (by omega)) l1
+  · rw [e]
+    subst hd
+    exact vok_child (h.inv.slot i) (vok_mono (h.vslot i) l1) hl ht (l3 hlt)
 
 theorem TSD.set_vinv {x : TSD} {W0 : List (Key × Int)} (h : x.VInv W0) {t : Time} (h0 : t ≠ 0)
-    (ht : x.deltaTime ≤ t) {k : Key} (v : Int) (hc : x.cleanFor t k) : (x.set t k v).VInv (x.vghost W0 t) := by
-  have h1 := TSD.at_vinv h ht hc
+    (ht : x.deltaTime ≤ t) (k : Key) (v : Int) : (x.set t k v).VInv (x.vghost W0 t) := by
+  have h1 := TSD.at_vinv h h0 ht k
   obtain ⟨_, h2, h3, _⟩ := TSD.at_inv h.inv t k
   unfold TSD.set
   exact TSD.writeChild_vinv h1 v h3 h0 (by rw [h2]; omega)
+
+theorem TSD.erase_lmt (x : TSD) (t : Time) (k : Key) (hd : t ≤ (x.removeKey t k).1.deltaTime) :
+    (x.removeKey t k).1.lmt ≤ (x.erase t k).1.lmt ∧ (x.erase t k).1.lmt ≤ max (x.removeKey t k).1.lmt t := by
+  unfold TSD.erase TSD.touch TSD.markModified
+  simp only [TSD.prepareDelta_of_le hd]
+  by_cases hc : (x.removeKey t k).2 = true
+  · simp only [hc, ↓reduceIte, recMod_eq_max]; omega
+  · simp only [hc, Bool.false_eq_true, ↓reduceIte]
+    by_cases e : ((x.removeKey t k).1.lmt != t) = true
+    · simp only [e, ↓reduceIte, recMod_eq_max]; omega
+    · simp only [e, Bool.false_eq_true, ↓reduceIte]; omega
 
 theorem TSD.erase_vinv {x : TSD} {W0 : List (Key × Int)} (h : x.VInv W0) (t : Time) (k : Key) :
     (x.erase t k).1.VInv (x.vghost W0 t) := by
@@ -363,54 +422,65 @@ theorem TSD.erase_vinv {x : TSD} {W0 : List (Key × Int)} (h : x.VInv W0) (t : T
   have hk := TSD.erase_keys (x := x) t k (by rw [hd]; omega)
   have hdt : (x.erase t k).1.deltaTime = (x.removeKey t k).1.deltaTime := by
     rw [(TSD.erase_inv h.inv t k).2, hd]
-  exact TSD.VInv_congr (TSD.removeKey_vinv h t k) hk hdt
+  have hr := TSD.removeKey_vinv h t k
+  obtain ⟨l1, l2⟩ := TSD.erase_lmt x t k (by rw [hd]; omega)
+  refine TSD.VInv_congr hr hk hdt l1 ?_
+  have := hr.lmt_le
+  rw [hdt, hd] at *
+  omega
 
 theorem TSD.eraseAll_vinv (ks : List Key) {t : Time} {W : List (Key × Int)} : ∀ {y : TSD}, y.VInv W →
-    t ≤ y.deltaTime → (ks.foldl (fun y k => (y.erase t k).1) y).VInv W := by
+    t ≤ y.deltaTime → (ks.foldl (fun y k => (y.erase t k).1) y).VInv W ∧
+      y.lmt ≤ (ks.foldl (fun y k => (y.erase t k).1) y).lmt := by
   induction ks with
-  | nil => intro y h _; exact h
+  | nil => intro y h _; exact ⟨h, Nat.le_refl _⟩
   | cons k rest ih =>
     intro y h hd
     have h1 := TSD.erase_vinv h t k
     rw [TSD.vghost_of_le hd] at h1
     have h2 := (TSD.erase_inv h.inv t k).2
+    have hrd := (TSD.removeKey_inv h.inv t k).2
+    have hl := (TSD.erase_lmt y t k (by rw [hrd.1]; omega)).1
+    rw [hrd.2] at hl
     simp only [List.foldl_cons]
-    exact ih h1 (by rw [h2]; omega)
+    obtain ⟨i1, i2⟩ := ih h1 (by rw [h2]; omega)
+    exact ⟨i1, by omega⟩
 
 theorem TSD.clear_vinv {x : TSD} {W0 : List (Key × Int)} (h : x.VInv W0) (t : Time) :
     (x.clear t).VInv (x.vghost W0 t) := by
   have h1 := TSD.prepare_vinv h t
   have hd := TSD.deltaTime_prepare x t
-  have hall := TSD.eraseAll_vinv (liveKeys x.keys.slots) (t := t) h1 (by rw [hd]; omega)
+  obtain ⟨hall, _⟩ := TSD.eraseAll_vinv (liveKeys x.keys.slots) (t := t) h1 (by rw [hd]; omega)
+  have hdd := (TSD.eraseAll_inv (liveKeys x.keys.slots) (t := t) h1.inv (by rw [hd]; omega)).2
   unfold TSD.clear TSD.touch TSD.markModified
   simp only
   by_cases e : ((x.prepareDelta t).lmt != t) = true
-  · simp only [e, ↓reduceIte]; exact TSD.VInv_congr hall rfl rfl
+  · simp only [e, ↓reduceIte]
+    refine TSD.VInv_congr hall rfl rfl (recMod_ge _ _) ?_
+    have := hall.lmt_le
+    exact recMod_le this (by show t ≤ _; rw [hdd, hd]; omega)
   · simp only [e, Bool.false_eq_true, ↓reduceIte]; exact hall
 
 theorem TSD.touchOp_vinv {x : TSD} {W0 : List (Key × Int)} (h : x.VInv W0) (t : Time) :
     (x.touchOp t).VInv (x.vghost W0 t) := by
   have h1 := TSD.prepare_vinv h t
+  have hd := TSD.deltaTime_prepare x t
+  have hmark : TSD.VInv { (x.prepareDelta t) with lmt := recMod (x.prepareDelta t).lmt t } (x.vghost W0 t) :=
+    TSD.VInv_congr h1 rfl rfl (recMod_ge _ _) (recMod_le h1.lmt_le (by show t ≤ _; rw [hd]; omega))
   unfold TSD.touchOp TSD.touch TSD.markModified
   simp only
   by_cases e : ((x.prepareDelta t).lmt != t) = true
   · simp only [e, ↓reduceIte]
     split
-    · exact TSD.VInv_congr h1 rfl rfl
-    · exact TSD.VInv_congr h1 rfl rfl
+    · exact TSD.VInv_congr hmark rfl rfl (Nat.le_refl _) hmark.lmt_le
+    · exact hmark
   · simp only [e, Bool.false_eq_true, ↓reduceIte]
     split
-    · exact TSD.VInv_congr h1 rfl rfl
+    · exact TSD.VInv_congr h1 rfl rfl (Nat.le_refl _) h1.lmt_le
     · exact h1
 
-/-- the clean-history condition for one operation (only `set` / `at` insert keys) -/
-def TSD.cleanOp (x : TSD) : DictOp → Prop
-  | .set t k _ => x.cleanFor t k
-  | .at t k => x.cleanFor t k
-  | _ => True
-
 theorem TSD.step_vinv {x : TSD} {W0 : List (Key × Int)} (h : x.VInv W0) (o : DictOp)
-    (ht : o.time ≠ 0 → x.deltaTime ≤ o.time) (hc : x.cleanOp o) : (x.step o).VInv (x.vghost W0 o.time) := by
+    (ht : o.time ≠ 0 → x.deltaTime ≤ o.time) : (x.step o).VInv (x.vghost W0 o.time) := by
   unfold TSD.step
   by_cases h0 : o.time = 0
   · simp only [h0, beq_self_eq_true, ↓reduceIte]
@@ -419,8 +489,8 @@ theorem TSD.step_vinv {x : TSD} {W0 : List (Key × Int)} (h : x.VInv W0) (o : Di
     simp only [this, Bool.false_eq_true, ↓reduceIte]
     have ht' := ht h0
     cases o with
-    | set t k v => exact TSD.set_vinv h h0 ht' v hc
-    | «at» t k => exact TSD.at_vinv h ht' hc
+    | set t k v => exact TSD.set_vinv h h0 ht' k v
+    | «at» t k => exact TSD.at_vinv h h0 ht' k
     | erase t k => exact TSD.erase_vinv h t k
     | clear t => exact TSD.clear_vinv h t
     | touch t => exact TSD.touchOp_vinv h t
